@@ -188,3 +188,83 @@ def rule_state_push(prog):
                  "do_action reports CustomEvent::Press for a custom action without checking that State::Custom was stored: "
                  "with the state vector full, the press handler runs but the release handler never will (stuck mouse button / endless scroll)")
     return res
+
+
+def rule_fork_keys(prog):
+    """R-FORK-KEYS (C10): fork's trigger scan sees every state that carries an active key code."""
+    from kq.analysis import blocks_with_agg
+    from kq.core import const_val, is_const, norm_name
+    res = RuleResult("R-FORK-KEYS", "fork looks for its trigger keys in every state that holds a key code", floor=2)
+    kc = prog.fn("kanata_keyberon::layout::State::keycode")
+    res.fn(kc)
+    some = set()
+    for sw in discr_switches(prog, kc, STATE)[:1]:
+        for v in sw.all_variants:
+            if blocks_with_agg(kc, sw.arm_reach(v), "core::option::Option", "Some", to_local=0):
+                some.add(v)
+    f = prog.fn(DO_ACTION)
+    res.fn(f)
+    sw = main_switch(prog, f)
+    region = sw.arm_region("Fork") if sw else set()
+    clos = []
+    for b in region:
+        for st in f.stmts(b):
+            if st["k"] == "assign" and st["rv"]["k"] == "agg" and "clo" in st["rv"]:
+                c = prog.fn_opt(norm_name(st["rv"]["clo"]))
+                if c is not None and discr_switches(prog, c, STATE):
+                    clos.append(c)
+    res.inst("keycode-variants", variants=sorted(some))
+    if len(clos) != 1:
+        res.viol("shape", f.loc, "expected one State-matching closure in the Fork arm, found %d" % len(clos))
+        return res
+    c = clos[0]
+    seen = set()
+    for s2 in discr_switches(prog, c, STATE)[:1]:
+        for v in s2.all_variants:
+            if v in s2.arms:
+                # an explicit arm that can yield something other than constant false
+                for b in s2.arm_reach(v):
+                    t = c.term(b)
+                    if t["k"] == "call" and t["dest"]["l"] == 0:
+                        seen.add(v)
+                    for st in c.stmts(b):
+                        if st["k"] == "assign" and st["p"]["l"] == 0 and not (st["rv"]["k"] == "use" and is_const(st["rv"]["a"]) and const_val(st["rv"]["a"]) == 0):
+                            seen.add(v)
+    for v in sorted(some | seen):
+        ok = v in some and v in seen
+        res.inst("fork-sees/" + v, keycode=v in some, fork=v in seen)
+        res.oblige(ok)
+        if not ok:
+            res.viol("fork-sees/" + v, c.loc,
+                     "State::%s: carries an active key code=%s, inspected by fork's trigger scan=%s — fork would not take its right "
+                     "branch for a trigger key held this way (switch and the output do see it)" % (v, v in some, v in seen))
+    return res
+
+
+def rule_osh_repress(prog):
+    """R-OSH-REPRESS (C06): re-pressing an active one-shot key always withdraws its pending release."""
+    res = RuleResult("R-OSH-REPRESS", "a re-pressed one-shot key is taken out of the deferred-release list on every path", floor=1)
+    f = prog.fn("kanata_keyberon::layout::OneShotState::handle_press")
+    res.fn(f)
+    sws = discr_switches(prog, f, "kanata_keyberon::layout::OneShotHandlePressKey")
+    if not sws:
+        res.viol("shape", f.loc, "handle_press no longer matches on OneShotHandlePressKey")
+        return res
+    sw = sws[0]
+    region = sw.arm_region("OneShotKey")
+    tgt = sw.target("OneShotKey")
+    rets = []
+    for b in region:
+        t = f.term(b)
+        if t["k"] == "call" and (callee_name(t) or "").endswith("ArrayDeque::retain"):
+            fl = receiver_fields(f, t)
+            if fl and fl[-1] == "released_keys":
+                rets.append(b)
+    ok = bool(rets) and tgt is not None and _must_pass(f, tgt, region | set(rets), rets)
+    res.inst("released_keys.retain", sites=len(rets), on_every_path=ok)
+    res.oblige(ok)
+    if not ok:
+        res.viol("released_keys.retain", "%s:%s" % (f.file, f.line_of(tgt) if tgt is not None else f.lo),
+                 "the OneShotKey arm of handle_press can finish without removing the re-pressed key from released_keys: when the "
+                 "one-shot ends, the key is released although it is physically held")
+    return res
